@@ -204,7 +204,8 @@ def replay(path):
 MANIFEST = dict(
     category="proof",
     technique="Lean 4 theorems errors_located / errors_true / errors_true_sub (mutual inductions, immutable paths) + "
-              "error-multiset correspondence",
+              "error-multiset correspondence"
+              " + validator translator (check programs extracted from the source, model = interpreter proved for all inputs)",
     text="Theorems: every error produced by the model validator and by the substitution validator carries a path that "
          "extends the caller's path and, followed from the root value, resolves to exactly the value the error reports "
          "(errors_located); the fact each of the 16 error kinds states is true of that value, for both validators "
@@ -213,7 +214,8 @@ MANIFEST = dict(
          "(shownPath_extends). Tie: full error multisets (kind, path, actual, parameter) of model and code compared on "
          "generated cases; search: every real error's path is followed with the real PathHolder operators, its stated fact "
          "re-evaluated in plain Python, its message checked to contain the formatted path, rendering re-done to detect "
-         "mutation.",
+         "mutation."
+         " Translator: the statement sequences of the scalar Validator.visit_* methods and of the container preludes are extracted from the source on every run (Gen/ValidatorProg.lean) and validateScalar_eq_extracted / listPrelude_eq_extracted / validateP_list_prelude prove the hand model equal to the interpreter on them for every input. Source pins: the normalised text of every anchor file is compared with the text the model was last validated against; a changed file is a broken obligation (no-failing-input-found unless the search finds an input).",
     note="Trusted: Lean kernel + standard axioms, hand model tied by sampling, codec, th.PathHolder (third-party) modelled "
          "as an immutable list. Message wording is not modelled (only the path it names is, and it is checked on the real "
          "code).")
